@@ -134,6 +134,7 @@ pub fn run_check(id: &str, tier: &str) -> i32 {
         "C03" => c03(tier, thorough),
         "C08" => c08(tier, thorough),
         "C10" => c10(tier, thorough),
+        "C15" => c15(tier, thorough),
         _ => {
             eprintln!("unknown check {}", id);
             2
@@ -274,8 +275,8 @@ fn c03(tier: &str, thorough: bool) -> i32 {
         let a = DataAlpha { paths: vec!["/n1", "/n2"], rewrite: vec![0, 1, 64, 65, 4096], setlen: vec![0, 100, 5000], append: vec![64], patch: vec![], remove: true };
         let mut ops = data_ops(&a);
         ops.push(Op::CreateStorage("/n3".into()));
-        ops.push(Op::RemoveStream("/f0".into()));
-        ops.push(Op::RemoveStream("/big".into()));
+        ops.push(Op::RemoveStream("/f0_0".into()));
+        ops.push(Op::RemoveStream("/big0".into()));
         add_enum(&ctx, &mut tot, "growth seed", &EnumCfg { version: v, seed, ops, depth: 2, oracles: o, extra_paths: vec![], one_reopen: false, extend_refused: false });
     }
     ctx.finish(tot.0, tot.1)
@@ -330,6 +331,62 @@ fn c10(tier: &str, thorough: bool) -> i32 {
     ctx.finish(tot.0, tot.1)
 }
 
+fn c15(tier: &str, thorough: bool) -> i32 {
+    let ctx = Ctx::new("C15", tier, level_mc(), "e1", &["growth"]);
+    common_assumptions(&ctx);
+    ctx.set_rule("every prefix state (fill-level seeds x all prefix sequences up to the depth) x every net-zero cycle x 3 repetitions, on the live object and with a reopen between repetitions; the model confirms the cycle is net-zero; oracle: file length after repetition 1 = 2 = 3");
+    let mut states = 0u64;
+    let mut trans = 0u64;
+    for v in [3u16, 4] {
+        let sizes: Vec<usize> = if thorough { sizes_thorough(v) } else { vec![0, 1, 64, 65, 4095, 4096, 4097, if v == 3 { 513 } else { 8193 }] };
+        let mut cyc: Vec<Vec<Op>> = Vec::new();
+        for &n in &sizes {
+            cyc.push(vec![Op::Rewrite("/c".into(), n), Op::RemoveStream("/c".into())]);
+            cyc.push(vec![Op::Rewrite("/s".into(), n), Op::RemoveStream("/s".into())]);
+        }
+        for &(n1, n2) in &[(10usize, 100usize), (100, 10), (100, 5000), (5000, 100), (5000, 9000), (9000, 5000), (0, 64), (64, 4096), (4096, 64)] {
+            cyc.push(vec![Op::Rewrite("/s".into(), n2), Op::Rewrite("/s".into(), n1)]);
+            cyc.push(vec![Op::Append("/s".into(), n2), Op::SetLen("/s".into(), n1 as u64)]);
+            cyc.push(vec![Op::SetLen("/s".into(), n2 as u64), Op::Rewrite("/s".into(), n1)]);
+        }
+        cyc.push(vec![Op::CreateStorage("/q".into()), Op::RemoveStorage("/q".into())]);
+        cyc.push(vec![Op::CreateStorageAll("/p/q/r".into()), Op::RemoveStorageAll("/p".into())]);
+        cyc.push((0..5).map(|i| Op::CreateStream(format!("/e{}", i))).chain((0..5).map(|i| Op::RemoveStream(format!("/e{}", i)))).collect());
+        cyc.push(vec![Op::Rewrite("/c".into(), 100), Op::Rewrite("/d".into(), 5000), Op::RemoveStream("/c".into()), Op::RemoveStream("/d".into())]);
+        cyc.push(vec![Op::Rewrite("/c".into(), 100), Op::Rewrite("/d".into(), 200), Op::RemoveStream("/d".into()), Op::RemoveStream("/c".into())]);
+        let a = DataAlpha { paths: vec!["/s", "/t"], rewrite: if thorough { sizes.clone() } else { vec![0, 10, 64, 100, 4095, 4096, 5000] }, setlen: vec![], append: vec![], patch: vec![], remove: true };
+        // fill levels of the mini stream / MiniFAT / FAT
+        let mut seeds: Vec<String> = vec!["fresh".into()];
+        if v == 3 {
+            for k in [1usize, 7, 8, 9, 63] {
+                seeds.push(format!("s1x{}", 64 * k));
+            }
+            for s in ["s1x4032+s1x64", "s1x4032+s1x128", "s2x4032+s1x64", "s2x4032+s1x128", "s2x4032+s1x192", "b63000", "b63488", "b64000", "r3x100", "r2x5000+s1x64"] {
+                seeds.push(s.to_string());
+            }
+        } else {
+            for k in [1usize, 63] {
+                seeds.push(format!("s1x{}", 64 * k));
+            }
+            for s in ["s1x4032+s1x64", "s1x4032+s1x128", "r3x100", "r2x5000+s1x64"] {
+                seeds.push(s.to_string());
+            }
+            if thorough {
+                seeds.push("s16x4032+s1x960".into());
+                seeds.push("s16x4032+s1x1024".into());
+                seeds.push("s16x4032+s1x1088".into());
+            }
+        }
+        let st = e1::cycles(&ctx, v, &seeds, &data_ops(&a), if thorough { 2 } else { 1 }, &cyc);
+        ctx.note(format!("cycles v{}: seeds={} cases={} applicable(net-zero)={} steps={} distinct_prefix_states={}", v, seeds.len(), st.cases, st.applicable, st.steps, st.distinct_prefix_states));
+        states += st.distinct_prefix_states;
+        trans += st.steps;
+        ctx.add("cycle_cases", st.cases);
+        ctx.add("cycle_cases_net_zero", st.applicable);
+    }
+    ctx.finish(states, trans)
+}
+
 pub fn replay(path: &str) -> i32 {
     let text = match std::fs::read_to_string(path) {
         Ok(t) => t,
@@ -375,6 +432,34 @@ pub fn replay(path: &str) -> i32 {
                     println!("VIOLATION-REPLAYED class={} {}", v.class, v.msg);
                 }
                 1
+            }
+        }
+        "cycle" => {
+            let c: e1::CycleCase = match serde_json::from_value(case["cycle"].clone()) {
+                Ok(c) => c,
+                Err(e) => {
+                    eprintln!("bad cycle case: {}", e);
+                    return 2;
+                }
+            };
+            match e1::run_cycle(&c) {
+                e1::CycleVerdict::Skipped => {
+                    println!("cycle not applicable on this tree");
+                    0
+                }
+                e1::CycleVerdict::Problem(c, m) => {
+                    println!("VIOLATION-REPLAYED class={} {}", c, m);
+                    1
+                }
+                e1::CycleVerdict::Lens(l) => {
+                    println!("file length after each repetition: {:?}", l);
+                    if l.windows(2).any(|w| w[0] != w[1]) {
+                        println!("VIOLATION-REPLAYED class=growth");
+                        1
+                    } else {
+                        0
+                    }
+                }
             }
         }
         other => {
